@@ -189,7 +189,8 @@ def seeds_shard(tier):
     tally = Tally()
     nseeds = 32 if tier == "quick" else 128
     for enc_kind in ("exp", "interval", "bern"):
-        for dt, steps, freq, refrac in ((1.0, 20, 400.0, 2.0), (0.5, 40, 200.0, None), (1.0, 20, 100.0, 3.0)):
+        for dt, steps, freq, refrac in ((1.0, 20, 400.0, 2.0), (0.5, 40, 200.0, None), (1.0, 20, 100.0, 3.0),
+                                        (0.1, 60, 1500.0, 0.5), (0.2, 40, 900.0, 1.0)):  # non-dyadic step times: 0.5 ms = 5 steps of 0.1 ms
             for online in (False, True):
                 for seed in range(nseeds):
                     outs = []
@@ -219,7 +220,7 @@ def seeds_shard(tier):
                         outs.append(o)
                     if o is None:
                         break
-                    gap = 1 if (refrac is None or enc_kind != "exp") else math.ceil(refrac / dt)
+                    gap = 1 if (refrac is None or enc_kind != "exp") else math.ceil(round(refrac / dt, 6))
                     check_train(tally, case, outs[0], steps, (2, 3), x.reshape(-1).tolist(), gap, f"{enc_kind}:{'online' if online else 'offline'}:real-rng")
                     a = torch.stack(outs[0]) if online else outs[0]
                     b = torch.stack(outs[1]) if online else outs[1]
